@@ -368,3 +368,58 @@ def _stmt_of(fnode, node):
             if any(x is node for x in _ast.walk(st)):
                 best = st
     return best or node
+
+
+def optional_number_tests_rule(ctx, rep: Report, clause: str, modules, floor: int = 0):
+    """a parameter declared Optional[int] / Optional[float] (default None) means "not given" by None only: 0 is a value.
+    Every test of such a parameter has to be a comparison (`is None`, `is not None`, `==`, `<`, ...); using the parameter
+    itself as a truth value (`if p:`, `not p`, `p or default`, `x if p else y`) treats a given 0 as not given."""
+    import ast as _ast
+    from ..loader import walk_own as _walk
+    program = ctx.program
+    n = 0
+    for f in program.all_functions():
+        if f.module.name not in modules:
+            continue
+        numeric = set()
+        for p in f.params:
+            ann = norm_stmt(p.annotation) if p.annotation is not None else ''
+            if p.default is not None and isinstance(p.default, _ast.Constant) and p.default.value is None and \
+                    ('Optional[int]' in ann or 'Optional[float]' in ann or ann in ('int | None', 'float | None',
+                                                                                     'Union[int, None]', 'Union[float, None]')):
+                numeric.add(p.name)
+        if not numeric:
+            continue
+        # a parameter re-bound in the function is no longer "the argument as given"
+        rebound = {x.id for x in _walk(f.node) if isinstance(x, _ast.Name) and isinstance(x.ctx, _ast.Store)}
+        for pname in sorted(numeric - rebound):
+            n += 1
+            bad = []
+            for x in _walk(f.node):
+                tests = []
+                if isinstance(x, (_ast.If, _ast.While, _ast.IfExp)):
+                    tests.append(x.test)
+                if isinstance(x, _ast.BoolOp):
+                    tests += list(x.values[:-1])      # `p or default`, `p and f(p)`
+                if isinstance(x, _ast.UnaryOp) and isinstance(x.op, _ast.Not):
+                    tests.append(x.operand)
+                if isinstance(x, _ast.comprehension):
+                    tests += list(x.ifs)
+                for t in tests:
+                    # the truth value of the parameter itself (also as an operand of and/or inside the test)
+                    parts = [t]
+                    while parts:
+                        q = parts.pop()
+                        if isinstance(q, _ast.BoolOp):
+                            parts += list(q.values)
+                        elif isinstance(q, _ast.UnaryOp) and isinstance(q.op, _ast.Not):
+                            parts.append(q.operand)
+                        elif isinstance(q, _ast.Name) and q.id == pname:
+                            bad.append(x)
+            check(rep, 'KIND', f.fq, f'optional number `{pname}` is tested against None, never for truth', not bad,
+                  'is None / is not None',
+                  f'`{norm_stmt(bad[0])[:70] if bad else ""}` uses `{pname}` as a truth value: a caller that passes 0 is '
+                  f'treated as if the argument had not been given', f.loc(bad[0]) if bad else f.loc(), clause)
+    if floor:
+        rep.floor('KIND', 'optional numeric parameters', n, floor)
+    return n
